@@ -45,8 +45,7 @@ func genC19(m *M, nPoints, nScalars int) {
 			}
 			m.class("scalar:" + sc)
 			s := secp256k1.NewScalar()
-			l := montLimbs(v, bigN)
-			copy(s.S[:], l[:])
+			setScalar(s, v)
 			e := base.Copy()
 			seq = seq[:0]
 			field.VerifTraceHook, scalar.VerifTraceHook = hook, hook
